@@ -20,8 +20,8 @@ TRUSTED = [
     "modelled not verified: torch.nn.functional.grid_sample (Model/Sampler.v), float rounding (float32 grid attributes)",
 ]
 ASSUMPTIONS = [
-    "warp_image / exp / convention theorems are proved for D = 2 (axes theorems for D in {2,3}); D = 3 is covered by the correspondence "
-    "(exp) and the implementation-side evaluation",
+    "the warp_image theorem is proved for D = 2 (axes / convention / exp theorems for D in {2,3}); 3-D warp_image is covered by the "
+    "implementation-side evaluation",
     "the image warped by warp_image lives on the same lattice as the flow field (as the code assumes)",
 ]
 AXN = ["GRID", "CUBE", "CUBE_CORNERS", "WORLD"]
@@ -249,15 +249,15 @@ MANIFEST_ENTRY = {
     "text": "Theorems (Coq, closed under the global context), any field of characteristic 0: for D in {2,3}, every well-formed (oriented, "
             "anisotropic) grid, all 4x4(x4) representations and batches of ANY size with one grid per item (induction over the batch): axes "
             "conversion is invertible, path independent, the identity on equal axes, and every converted vector is the difference of the "
-            "item's own grid point map at x+v and x (derived from the C01 theorems on the generated Grid.transform_vectors); for D = 2, any "
-            "lattice size: compose_flows / expv on cube vectors of either align_corners convention are the same index-space operation; "
-            "warp_image gives the same image for all four representations of one displacement, and exp AS SPECIFIED commutes with "
-            "representation changes (both are the index-space operation conjugated by the representation change); FlowFields.exp AS CODED "
+            "item's own grid point map at x+v and x (derived from the C01 theorems on the generated Grid.transform_vectors); for D in {2,3}, any "
+            "lattice size: compose_flows / expv on cube vectors of either align_corners convention are the same index-space operation, and "
+            "exp AS SPECIFIED commutes with representation changes (it is the index-space operation conjugated by the representation "
+            "change); D = 2: warp_image gives the same image for all four representations of one displacement; FlowFields.exp AS CODED "
             "equals the specification for cube axes (partial) and differs for WORLD axes (C10_exp_code_refuted, vm_compute witness). Tie: "
             "Gen/GridT.v regenerated by tracing; hand model of data/flow.py run in Coq against FlowFields / FlowField axes (16 pairs, shared "
             "/ per-item grids), exp (coded vs specified variant recorded), warp_image, sample's vector re-scaling.",
     "note": "Refuted on the unchanged tree (known findings): FlowFields.exp exponentiates the unconverted tensor (WORLD / GRID axes); "
-            "normalize_grid / denormalize_grid(align_corners=False) are half a sample off the grid's GRID<->CUBE point map. Partial: D = 3 "
-            "for warp / exp / convention theorems is covered by correspondence and implementation-side evaluation only; the data resampling "
+            "normalize_grid / denormalize_grid(align_corners=False) are half a sample off the grid's GRID<->CUBE point map. Partial: the 3-D "
+            "warp_image theorem is not proved (implementation-side evaluation only); the data resampling "
             "inside sample() is ImageBatch.sample (C05/C19). Trusted: Coq kernel, vm_compute, F.grid_sample model, symtorch, float rounding.",
 }
